@@ -56,14 +56,12 @@ func (d *directChannel) handleNewPeer(s network.Stream) {
 		return
 	}
 
-	length := int(length64)
-
-	if length > DelimitedReadMaxSize {
-		d.logger.Error(fmt.Sprintf("received data exceeding maximum allowed size (%d > %d)", length, DelimitedReadMaxSize))
+	if length64 > DelimitedReadMaxSize {
+		d.logger.Error(fmt.Sprintf("received data exceeding maximum allowed size (%d > %d)", length64, DelimitedReadMaxSize))
 		return
 	}
 
-	data := make([]byte, length)
+	data := make([]byte, int(length64))
 	if _, err := io.ReadFull(reader, data); err != nil {
 		d.logger.Error("unable to read buffer", zap.Error(err))
 		return
